@@ -157,41 +157,49 @@ let dec_aty x = match x with A "R" -> RD | A "W" -> WR | _ -> bad "aty"
 let enc_aty t = A (match t with RD -> "R" | WR -> "W")
 let enc_queue q = enc_list (fun g -> L [enc_aty g.g_ty; enc_list enc_int (List.sort compare (List.map int_of_nat g.g_reqs))]) q
 let h_regq args = match args with
-  | rs :: ops :: _ ->
+  | rs :: ops :: rest ->
     let rs = dec_list (fun r -> match r with L [t; o] -> (dec_aty t, dec_nat o) | _ -> bad "req") rs in
+    let ops = dec_list (fun x -> x) ops in
     let q0 = build_queue rs in
-    let q = ref q0 and a = ref (Some (a_init rs)) and dead = ref false in
-    let spec_ok = ref true in
+    (* the model, run along the operations *)
+    let q = ref q0 and dead = ref false in
     let outs = List.map (fun op ->
         if !dead then A "skipped" else
         match op with
         | L [A "can"; t; o] ->
-          let t = dec_aty t and o = dec_nat o in
-          (match can_access !q t o with
-           | Ok b ->
-             (match !a with Some st -> if a_empty st || a_can_access st t o <> b then spec_ok := false | None -> ());
-             enc_bool b
-           | Err _ ->
-             (match !a with Some st -> if not (a_empty st) then spec_ok := false | None -> ());
-             A "IndexError")
+          (match can_access !q (dec_aty t) (dec_nat o) with Ok b -> enc_bool b | Err _ -> A "IndexError")
         | L [A "deq"; o] ->
-          let o = dec_nat o in
-          let servable = (match can_access !q RD o, can_access !q WR o with Ok true, _ | _, Ok true -> true | _ -> false) in
-          (match dequeue !q o with
-           | Ok q' ->
-             q := q';
-             (match !a with
-              | Some st -> (match a_dequeue st o with
-                  | Some st' -> a := Some st'; if abs_queue st' <> q' then spec_ok := false
-                  | None -> if servable then spec_ok := false; a := None)
-              | None -> ());
-             A "ok"
-           | Err e -> dead := true;
-             if servable then spec_ok := false;
-             enc_pyerr (match e with UnknownUnit -> KeyError | x -> x))
-        | _ -> bad "op") (dec_list (fun x -> x) ops) in
+          (match dequeue !q (dec_nat o) with
+           | Ok q' -> q := q'; A "ok"
+           | Err e -> dead := true; enc_pyerr (match e with UnknownUnit -> KeyError | x -> x))
+        | _ -> bad "op") ops in
+    (* the abstract reading of C19 (spec/QueueSpec.v), judged against the IMPLEMENTATION's answers *)
+    let spec_ok = ref true in
+    (match rest with
+     | L [iq0; L iouts; iqf] :: _ ->
+       let a = ref (Some (a_init rs)) in
+       if iq0 <> enc_queue (abs_queue (a_init rs)) then spec_ok := false;
+       (try
+          List.iter2 (fun op io ->
+              match !a, op with
+              | None, _ -> ()
+              | Some st, L [A "can"; t; o] ->
+                let expect = if a_empty st then A "IndexError" else enc_bool (a_can_access st (dec_aty t) (dec_nat o)) in
+                if io <> expect then spec_ok := false
+              | Some st, L [A "deq"; o] ->
+                let o = dec_nat o in
+                let servable = (not (a_empty st)) && (a_can_access st RD o || a_can_access st WR o) in
+                (match a_dequeue st o, io with
+                 | Some st', A "ok" -> a := Some st'
+                 | None, A "ok" -> spec_ok := false; a := None
+                 | Some _, _ -> if servable then spec_ok := false; a := None      (* a permitted removal failed *)
+                 | None, _ -> a := None)
+              | _ -> ()) ops iouts
+        with Invalid_argument _ -> spec_ok := false);
+       (match !a with Some st -> if iqf <> enc_queue (abs_queue st) then spec_ok := false | None -> ())
+     | _ -> ());
     [L [A "model"; L [enc_queue q0; L outs; enc_queue !q]];
-     L [A "chk"; chk "C19" (!spec_ok && abs_queue (a_init rs) = q0)]]
+     L [A "chk"; chk "C19" !spec_ok]]
   | _ -> bad "regq args"
 
 let enc_pinstr pi = L [enc_list enc_cstr pi.pi_srcs; enc_cstr pi.pi_dst; enc_cstr pi.pi_name; enc_nat pi.pi_line]
